@@ -746,12 +746,13 @@ class NumbaBackend(NumpyBackend):
                 msg = "Inner product for these ranks"
                 raise NotImplementedError(msg)
 
+            rank_out = rank_a + rank_b - 2
+            a_shape = (dim,) * rank_a + field.grid.shape
+            b_shape = (dim,) * rank_b + field.grid.shape
+            out_shape = (dim,) * rank_out + field.grid.shape
+
             if isinstance(out, (nb.types.NoneType, nb.types.Omitted)):
                 # function is called without `out` -> allocate memory
-                rank_out = rank_a + rank_b - 2
-                a_shape = (dim,) * rank_a + field.grid.shape
-                b_shape = (dim,) * rank_b + field.grid.shape
-                out_shape = (dim,) * rank_out + field.grid.shape
                 dtype = get_common_numba_dtype(a, b)
 
                 def dot_impl(
